@@ -19,7 +19,7 @@ RULE = ("qr cases = container (restricted array / unrestricted list, n_up == n_d
 MIN_NONTRIVIAL = {"quick": 80, "thorough": 500}
 TIMEOUT = {"quick": 1200, "thorough": 5400}
 ASSUMPTIONS = ["full-column-rank complex walker batches", "initial-walker overlap threshold 1e-3 relative to |psi_T| (the generator's own threshold)"]
-REQUIRED_COUNTERS = {"qr_batches": 40, "overlap_identities": 40, "init_calls": 30}
+REQUIRED_COUNTERS = {"qr_batches": 40, "overlap_identities": 40, "init_calls": 30, "contract_qr_orthonormal": 10}
 
 
 def gen_cases(tier, seed):
@@ -52,6 +52,8 @@ def gen_cases(tier, seed):
                     for restricted in (False, True):
                         cases.append({"type": "init", "kind": kind, "norb": norb, "nelec": [na, nb], "class": cls, "restricted": restricted,
                                       "s": int(rng.integers(1 << 30)), "group": "init-%s-%d" % (kind, norb)})
+    for wt, ad in (("rhf", None), ("uhf", "forward")):
+        cases.append({"type": "driver", "wt": wt, "ad_mode": ad, "s": int(rng.integers(1 << 30)), "group": "drv-%s" % wt, "cost": 40})
     if q:
         keep = [c for c in cases if c["type"] != "init"]
         init = [c for c in cases if c["type"] == "init"]
@@ -310,4 +312,8 @@ def run_init(case):
 
 
 def run_case(case):
+    if case["type"] == "driver":
+        from vlib import contracts
+
+        return contracts.driver_case(("qr",), ["qr-orthonormal"], case, "C13")
     return {"qr": run_qr, "cpmc": run_cpmc, "init": run_init}[case["type"]](case)
